@@ -321,10 +321,17 @@ func checkC14(c *lib.Ctx) {
 	}
 	var jobs []json.RawMessage
 	if c.Replay != "" {
-		var cs gCase
-		if err := lib.ReadReplay(c.Replay, &cs); err != nil {
+		var in struct {
+			gCase
+			Case *gCase `json:"case"`
+		}
+		if err := lib.ReadReplay(c.Replay, &in); err != nil {
 			r.Fail(lib.Failure{Kind: "tie", Key: "replay", What: err.Error()})
 			return
+		}
+		cs := in.gCase
+		if in.Case != nil {
+			cs = *in.Case
 		}
 		jobs = append(jobs, gJSON(cs))
 	} else {
